@@ -325,6 +325,15 @@ func (c *c14) malformed(base *valWorld) {
 			return k.RegisterExecutorChangePlan(8, 506, goodOp, "m", `{"@type":"/cosmos.crypto.unknown.PubKey","key":"AAAA"}`, "i", goodExec)
 		}},
 		{"key empty", func() error { return k.RegisterExecutorChangePlan(9, 507, goodOp, "m", "", "i", goodExec) }},
+		// the pending plan's own proposal id, another (free) height, malformed content: refused, and the pending plan stays
+		{"pending plan's proposal id, free height, key not JSON", func() error { return k.RegisterExecutorChangePlan(1, 511, goodOp, "m", "not json", "i", goodExec) }},
+		{"pending plan's proposal id, free height, executor undecodable", func() error {
+			return k.RegisterExecutorChangePlan(1, 512, goodOp, "m", goodKey, "i", []string{"xyz"})
+		}},
+		{"pending plan's proposal id, free height, validator address not bech32", func() error {
+			return k.RegisterExecutorChangePlan(1, 513, "nonsense", "m", goodKey, "i", goodExec)
+		}},
+		{"pending plan's proposal id, height 0", func() error { return k.RegisterExecutorChangePlan(1, 0, goodOp, "m", goodKey, "i", goodExec) }},
 	}
 	for _, b := range cases {
 		before := fmt.Sprint(len(k.ExecutorChangePlans), planHeights(k.ExecutorChangePlans))
